@@ -31,7 +31,7 @@ RULE = (
     'distinct = (loader, fault kind, prefix length / garbage bytes).'
 )
 RULE += ' Added in rounds 7-10: digit-shift and checksum-collision argument variants; foreign cache-like files (<stem>.cache of another load, stale .tmp) next to the sources.'
-RULE += ' Round 12: to_cache / from_cache round trip of hand-built trajectories (unwrapped raw coordinates with values exactly 0, 1, -1, 2, 1-2^-53, in position form and in displacement form with whole-lattice-vector steps). Round 13: explicit cache paths with arbitrary suffixes (.v1/.v2, .0/.5, .pkl, none): files appear at exactly the requested paths and names differing in the last dotted part stay distinct.'
+RULE += ' Round 12: to_cache / from_cache round trip of hand-built trajectories (unwrapped raw coordinates with values exactly 0, 1, -1, 2, 1-2^-53, in position form and in displacement form with whole-lattice-vector steps). Round 14: argument variants whose temperature differs by a fraction of a kelvin. Round 13: explicit cache paths with arbitrary suffixes (.v1/.v2, .0/.5, .pkl, none): files appear at exactly the requested paths and names differing in the last dotted part stay distinct.'
 ASSUMPTIONS = [
     'synthetic loader inputs exercise the loaders\' control flow, not the variety of real simulation output',
     'garbage that happens to be a loadable pickle of some other object is outside the statement ("unreadable") and is skipped and counted',
@@ -178,6 +178,8 @@ class Config:
                 self.kw['type_mapping'] = mapping
             self.call = lambda cache=None, **extra: Trajectory.from_lammps(coords_file=self.src[0], cache=cache, **{'data_file': self.src[1], **self.kw, **extra})
             self.variants = [{'temperature': self.kw['temperature'] + 100}, {'time_step': self.kw['time_step'] * 2}, {'constant_lattice': False}]
+            # thermostat set points a fraction of a kelvin apart (300.25 / 300.75 K), time steps a per mille apart
+            self.variants += [{'temperature': float(self.kw['temperature']) + 0.5}, {'temperature': float(self.kw['temperature']) + 0.25, 'time_step': self.kw['time_step'] * 1.001}]
             # argument sets whose serialised text differs by the byte pattern (+1, -2, +1) / (-1, +2, -1) on three
             # neighbouring digits (879 / 798, 320 / 401): position-weighted checksums (Adler, Fletcher) collide on them
             digs = [int(ch) for ch in str(int(self.kw['temperature']))]
@@ -218,7 +220,7 @@ class Config:
             synth_io.write_gromacs(self.src[1], self.src[0], lengths, symbols, cart, dt_ps=float(rng.choice([1.0, 2.0])))
             self.kw = {'temperature': float(rng.integers(300, 900))}
             self.call = lambda cache=None, **extra: Trajectory.from_gromacs(coords_file=self.src[0], cache=cache, **{'topology_file': self.src[1], **self.kw, **extra})
-            self.variants = [{'temperature': self.kw['temperature'] + 50}]
+            self.variants = [{'temperature': self.kw['temperature'] + 50}, {'temperature': self.kw['temperature'] + 0.5}, {'temperature': self.kw['temperature'] + 0.25}]
             # a topology with the same base name in another directory (other atom names)
             os.makedirs(os.path.join(d, 'other'), exist_ok=True)
             alt_sym = ['Na' if x == 'Li' else x for x in symbols]
